@@ -191,3 +191,52 @@ do_match_shapes!(dm_u64, u64, |_| true);
 do_match_shapes!(dm_f32, f32, |x| !x.is_nan());
 do_match_shapes!(dm_f64, f64, |x| !x.is_nan());
 
+
+// ---- the `Multiple` arm (`a | b`, count lists): two children of fixed shapes, all operands symbolic ----
+macro_rules! do_match_multiple {
+    ($m:ident, $t:ty) => {
+        mod $m {
+            use super::*;
+            #[kani::proof]
+            #[kani::unwind(3)]
+            fn exact_or_bounds() {
+                let n: $t = kani::any();
+                let a: $t = kani::any();
+                let s: $t = kani::any();
+                let e: $t = kani::any();
+                let r: Range<$t> = Range::Multiple(vec![
+                    Range::Exact(a),
+                    Range::Bounds { start: Some(s), end: Bound::Included(e) },
+                ]);
+                let got = r.do_match(n);
+                core::mem::forget(r);
+                assert!(got == (n == a || (s..=e).contains(&n)));
+            }
+            #[kani::proof]
+            #[kani::unwind(4)]
+            fn three_children() {
+                let n: $t = kani::any();
+                let a: $t = kani::any();
+                let b: $t = kani::any();
+                let e: $t = kani::any();
+                let r: Range<$t> = Range::Multiple(vec![
+                    Range::Exact(a),
+                    Range::Bounds { start: None, end: Bound::Excluded(e) },
+                    Range::Exact(b),
+                ]);
+                let got = r.do_match(n);
+                core::mem::forget(r);
+                assert!(got == (n == a || (..e).contains(&n) || n == b));
+            }
+        }
+    };
+}
+// BOUNDED in the number and shapes of the children (labelled so in the evidence)
+do_match_multiple!(dmm_i8, i8);
+do_match_multiple!(dmm_i16, i16);
+do_match_multiple!(dmm_i32, i32);
+do_match_multiple!(dmm_i64, i64);
+do_match_multiple!(dmm_u8, u8);
+do_match_multiple!(dmm_u16, u16);
+do_match_multiple!(dmm_u32, u32);
+do_match_multiple!(dmm_u64, u64);
